@@ -35,6 +35,6 @@ QuietAfterLost == \A s \in Sides : lost[s] = 1 =>
 PrefixAlways == Integrity
 
 \* reachability (each must be violated)
-NeverEndedOrderlyBothData == ~(Ended /\ Orderly /\ rcvd[1] >= 1 /\ rcvd[2] >= 2 /\ \E s \in Sides : rdl[s] /\ wrl[Peer(s)])
+NeverEndedOrderlyBothData == ~(Ended /\ Orderly /\ rcvd[1] >= 1 /\ rcvd[2] >= 1 /\ \E s \in Sides : rdl[s] /\ wrl[Peer(s)])
 NeverAbortPrefix == ~(Ended /\ ~Orderly /\ \E s \in Sides : rcvd[s] >= 1 /\ rcvd[s] < sent[Peer(s)] /\ why[s] = "ConnectionLost")
 =============================================================================
